@@ -6,6 +6,8 @@ Rules: R-C03-sections, R-C03-linelen, R-C03-layout, R-C03-text.
 """
 import ast
 
+from ..astutil import clone
+
 from .. import rx
 from ..absint.symx import Aff, TOP
 from ..cfg import cfg_of
@@ -372,9 +374,9 @@ def _subst(node, name, repl):
     class T(ast.NodeTransformer):
         def visit_Name(self, n):
             if n.id == name and isinstance(n.ctx, ast.Load):
-                return copy.deepcopy(repl)
+                return clone(repl)
             return n
-    return T().visit(copy.deepcopy(node))
+    return T().visit(clone(node))
 
 
 def rule_lua_lines(ctx, res):
